@@ -133,6 +133,12 @@ def cases(rng, tier):
         yield "hist %s %s" % (wspec(rng), ";".join(
             ["exp:%d:0:%d" % (a, rng.choice([2, 3, 5])), "exp:%d:0:%d" % (rng.choice([0, 1]), rng.choice([0, 1])),
              "rep:0:0:1", "exp:0:0:1", "exp:1:0:2", "exp:0:0:0"] + gen_history(rng, 5, False))), "history-export-file"
+        # an address generator is started, other requests derive children under the SAME node, the generator is closed
+        # (it is never used again), and the nodes those other requests received are looked at afterwards
+        yield "hist %s %s" % (wspec(rng), ";".join(
+            ["ckd:0:3", "ng:0:p2pkh", "nx:0", "ckd:0:5", "nx:0", "ckd:0:6", "gc:0:8:10", "cl:0", "xk:1", "xk:2", "xk:3", "xk:4",
+             "ad:2:p2wpkh", "ckd:2:1", "dp:0:5,1", "ng:2:p2wpkh", "nx:1", "ckd:2:2", "cl:1", "xk:5", "xk:6", "root"])), \
+            "history-generator-closed"
         # reports for several accounts in a row, the default account before, between and after the others
         accts = [0, rng.choice([1, 7, 2 ** 31 - 1]), 0, rng.choice([2, 100]), rng.choice([1, 7]), 0]
         yield "hist %s %s" % (wspec(rng), ";".join(["rep:%d:0:1" % a_ for a_ in accts] + ["xk:0", "was"])), "history-account-sequence"
@@ -218,7 +224,7 @@ def stateless(wspec_, ops):
                     except Exception:
                         g[4] = True
                         res = "err"
-            elif k == "nw":
+            elif k in ("nw", "cl"):
                 res = fresh.do("root")
             else:
                 res = fresh.do(o)
